@@ -231,6 +231,15 @@ func runSrv(o *Out, r *rand.Rand, focus string) {
 		if focus == "c04" && !cfg.auth {
 			srvPooled(o, rig, r, &id, "c04")
 		}
+		if focus == "c04" {
+			bursts := 5
+			if thorough() {
+				bursts = 40
+			}
+			for b := 0; b < bursts; b++ {
+				srvBurst(o, rig, r, &id, cfg)
+			}
+		}
 		rig.close()
 	}
 }
@@ -499,5 +508,86 @@ func srvPooled(o *Out, rig *srvRig, r *rand.Rand, id *int, pfx string) {
 	}
 	if n := atomic.LoadInt32(&rig.pooledReplyBad); n > 0 {
 		o.Violate(pfx+".pooled.reply-shared", fmt.Sprintf("a pooled reply object changed under a running handler %d times (the same object handed to two requests in flight)", n), map[string]any{"connections": conns, "per_connection": per, "one_way_every": 7})
+	}
+}
+
+// srvBurst: several big-reply requests pipelined on ONE connection, their handlers released
+// together, so that the responses are produced at the same moment; every request must still get
+// exactly one response carrying its own identity and the result computed from its own arguments.
+func srvBurst(o *Out, rig *srvRig, r *rand.Rand, id *int, cfg srvOpts) {
+	k := 5 + r.Intn(4)
+	// the server side of this connection is a transport that may pause between two Write calls
+	// (never inside one): responses put on the wire with several writes can then interleave
+	// (the connection reaches the accept plugin only once its first bytes have been classified by
+	// the port multiplexer, i.e. after the first request has been sent)
+	atomic.StoreInt32(&wrapChunky, 2)
+	defer atomic.StoreInt32(&wrapChunky, 0)
+	before := atomic.LoadInt32(&rig.accepted)
+	p, err := dialRaw(rig.addr)
+	if err != nil {
+		o.Violate("srv.rig", "cannot connect: "+err.Error(), nil)
+		return
+	}
+	defer p.c.Close()
+	ids := make([]int, k)
+	sizes := make([]int, k)
+	gates := make([]chan struct{}, k)
+	starts := make([]chan struct{}, k)
+	for i := range ids {
+		*id++
+		ids[i] = *id
+		sizes[i] = []int{100, 5000, 5000, 20000, 20000, 20000, 70000}[r.Intn(7)]
+		gates[i], starts[i] = rig.gate(ids[i])
+		meta := map[string]string{"rid": fmt.Sprint(ids[i])}
+		if cfg.auth {
+			meta[share.AuthKey] = "good"
+		}
+		q := rawReq{id: ids[i], seq: uint64(ids[i]), path: "Svc", method: "Do", ser: protocol.JSON, meta: meta, args: &SArgs{ID: ids[i], Mode: "ok", Size: sizes[i]}}
+		if err := p.send(q); err != nil {
+			o.Violate("srv.rig", "send failed: "+err.Error(), nil)
+			return
+		}
+	}
+	for i := 0; i < 2000 && atomic.LoadInt32(&rig.accepted) == before; i++ {
+		time.Sleep(100 * time.Microsecond)
+	}
+	atomic.StoreInt32(&wrapChunky, 0)
+	// let the handlers start (they park at their gates), then release them together; a handler
+	// that starts later finds its gate open
+	deadline := time.Now().Add(30 * time.Millisecond)
+	for i := range starts {
+		select {
+		case <-starts[i]:
+		case <-time.After(time.Until(deadline)):
+		}
+	}
+	for i := range gates {
+		close(gates[i])
+	}
+	msgs, _ := p.readAll(k, 3*time.Second)
+	rp := map[string]any{"requests_on_one_connection": k, "reply_sizes": fmt.Sprint(sizes), "pool": cfg.pool, "auth": cfg.auth}
+	o.Eval(fmt.Sprintf("burst %v", rp), true)
+	o.Count("burst")
+	seen := map[int]int{}
+	for _, m := range msgs {
+		var rpv SReply
+		if m.MessageType() != protocol.Response || m.ServicePath != "Svc" || m.ServiceMethod != "Do" || m.MessageStatusType() != protocol.Normal ||
+			share.Codecs[protocol.JSON].Decode(m.Payload, &rpv) != nil || uint64(rpv.ID) != m.Seq() {
+			o.Violate("c04.burst.corrupt-response", fmt.Sprintf("a response of a pipelined burst is not a well-formed answer to one of the requests (seq %d, %d payload bytes)", m.Seq(), len(m.Payload)), rp)
+			return
+		}
+		seen[rpv.ID]++
+		for i := range ids {
+			if ids[i] == rpv.ID && rpv.Data != strings.Repeat("x", sizes[i])+fmt.Sprint(ids[i]) {
+				o.Violate("c04.burst.wrong-result", "a response of a pipelined burst does not hold the result computed from its own request's arguments", rp)
+				return
+			}
+		}
+	}
+	for _, x := range ids {
+		if seen[x] != 1 {
+			o.Violate("c04.burst.response-count", fmt.Sprintf("request %d of a pipelined burst got %d responses (%d of %d responses arrived intact)", x, seen[x], len(msgs), k), rp)
+			return
+		}
 	}
 }
